@@ -51,7 +51,7 @@ def main(argv):
     snap = os.path.join(HERE, "..", "coq", "gen_snapshot")
     os.makedirs(out, exist_ok=True)
     status = {}
-    for name, fn in units.UNITS.items():
+    for name, fn in units.discover().items():
         if names and name not in names:
             continue
         snap_path = os.path.join(snap, name + ".v")
